@@ -9,7 +9,7 @@ class TermError(Exception):
     pass
 
 
-_TOK = re.compile(r"\s*(?:(\d+)|([A-Za-z_:<>@\[\]'&][\w:<>@\[\]'&]*(?:\.[\w@:<>\[\]]+)*)|(.))")
+_TOK = re.compile(r"\s*(?:(\d+)|('(?:[^'\\]|\\.)*'(?![\w])|\"(?:[^\"\\]|\\.)*\")|([A-Za-z_:<>@\[\]'&][\w:<>@\[\]'&]*(?:\.[\w@:<>\[\]]+)*)|(.))")
 
 
 def parse(s):
@@ -19,7 +19,7 @@ def parse(s):
         m = _TOK.match(s, pos[0])
         if not m:
             return None, None
-        return m, (("int", int(m.group(1))) if m.group(1) is not None else ("name", m.group(2)) if m.group(2) is not None else ("sym", m.group(3)))
+        return m, (("int", int(m.group(1))) if m.group(1) is not None else ("str", m.group(2)) if m.group(2) is not None else ("name", m.group(3)) if m.group(3) is not None else ("sym", m.group(4)))
 
     def take():
         m, t = peek()
@@ -46,6 +46,9 @@ def parse(s):
         if t[0] == "int":
             take()
             node = ("int", t[1])
+        elif t[0] == "str":
+            take()
+            node = ("str", t[1])
         elif t == ("sym", "-"):
             take()
             n = take()
